@@ -24,6 +24,6 @@ if os.path.exists(f"{d}/verify.log"):
     }
 meta = {"id": sid, "breaks_property": prop, "source": source, "needs_to_manifest": needs,
         "confirmed": ver, "checks_run": checks,
-        "what_i_ran": f"tools/try_mutant.sh {sid} {prop}  (git -C /repo apply patch.diff; ./check {prop} --tier quick; git -C /repo checkout -- .)"}
+        "what_i_ran": f"tools/try_mutant.sh or tools/try_mutant_isolated.sh {sid} {prop}  (apply patch.diff to /repo - or to a scratch worktree of it with a scratch copy of /verif pointing there -, ./check {prop} --tier quick, undo)"}
 json.dump(meta, open(f"{d}/meta.json","w"), indent=1)
 print(sid, {k:v["detected"] for k,v in checks.items()}, ver and (ver["demo_fails_with_change"], ver["demo_passes_without_change"]))
